@@ -17,15 +17,36 @@ for d in sorted(glob.glob(os.path.join(ROOT, 'seeded/C*-*'))):
 if len(sys.argv) > 1:
     jobs = [j for j in jobs if j[0] in sys.argv[1:]]
 os.makedirs(os.path.join(ROOT, 'build/crosslogs'), exist_ok=True)
+JOBS = int(os.environ.get('JOBS', '6'))
+copies = ['/tmp/vx-%d-%d' % (os.getpid(), k) for k in range(JOBS)]
+for c in copies:      # one scratch copy of /verif per worker: a Coq tree cannot be shared between different source trees
+    subprocess.run(['rsync', '-a', '--delete', '--exclude', '.git', '--exclude', 'seeded', '--exclude', 'replays',
+                    '--exclude', '__pycache__', ROOT + '/', c + '/'], check=True)
+free = list(copies)
 def run(j):
     n, pid = j
-    out = subprocess.run(['/verif/tools/seed_run.sh', n, pid], stdout=subprocess.PIPE, stderr=subprocess.STDOUT, text=True).stdout
-    open(os.path.join(ROOT, 'build/crosslogs/%s.%s.log' % (n, pid)), 'w').write(out)
-    l = [x for x in out.splitlines() if x.startswith('seed=')]
-    return n, pid, (l[0] if l else out[-300:])
-# one job per property at a time is not required (distinct Gen files), but keep the load moderate
-with ThreadPoolExecutor(4) as ex:
-    res = list(ex.map(run, jobs))
+    c = free.pop()
+    wt = '/tmp/wt-cross-%s-%s-%d' % (n, pid, os.getpid())
+    try:
+        subprocess.run(['git', '-C', '/repo', 'worktree', 'add', '-q', wt, 'HEAD'], check=True)
+        if subprocess.run(['git', '-C', wt, 'apply', os.path.join(ROOT, 'seeded', n, 'patch.diff')]).returncode:
+            return n, pid, 'seed=%s PATCH-DOES-NOT-APPLY' % n
+        p = subprocess.run([os.path.join(c, 'check'), pid], stdout=subprocess.PIPE, stderr=subprocess.STDOUT, text=True,
+                           env=dict(os.environ, VERIF_ROOT=c, VERIF_REPO=wt))
+        out = p.stdout
+        open(os.path.join(ROOT, 'build/crosslogs/%s.%s.log' % (n, pid)), 'w').write(out)
+        v = ' '.join(x[:400] for x in out.splitlines() if re.match(r'(VIOLATION|OK|failure:|correspondence|PROOF-PROBLEM)', x))
+        return n, pid, 'seed=%s check=%s rc=%d :: %s' % (n, pid, p.returncode, v)
+    finally:
+        subprocess.run(['git', '-C', '/repo', 'worktree', 'remove', '--force', wt])
+        free.append(c)
+import shutil
+try:
+    with ThreadPoolExecutor(JOBS) as ex:
+        res = list(ex.map(run, jobs))
+finally:
+    for c in copies:
+        shutil.rmtree(c, ignore_errors=True)
 rows = ['| change | other check | exit | verdict |', '|---|---|---|---|']
 for n, pid, l in res:
     m = re.search(r' rc=(\d+) ', l)
